@@ -82,7 +82,7 @@ fn ref_single_number(s: &[u8], max: usize) -> Option<(bool, i64)> {
 
 // ------------------------------------------------------------------------------------- C18: now()
 
-//@ unit c18_now prop=C18,C02,C03 clock=1 mem=4 timeout=1200 stubs=chrono::Local::now=>crate::verif_support::stub_local_now bound="every current local instant 1970-01-01..9999-12-31 to the microsecond (symbolic clock): Date::now, Timestamp::now, OracleDate::now, TryFrom<Time> for Timestamp and OracleDate report it (microseconds dropped for the Oracle-style date)"
+//@ unit c18_now prop=C18 tier=thorough clock=1 mem=6 timeout=7200 stubs=chrono::Local::now=>crate::verif_support::stub_local_now bound="every current local instant 1970-01-01..9999-12-31 to the microsecond (symbolic clock): Date::now, Timestamp::now, OracleDate::now, TryFrom<Time> for Timestamp and OracleDate report it (microseconds dropped for the Oracle-style date)"
 fn c18_now() {
     let (y, m, d, h, mi, s, us) = any_clock(1970, 9999);
     let tsel: i64 = kani::any();
@@ -113,7 +113,7 @@ fn c18_now() {
     kani::cover!(y == 1970 && us == 999_999);
 }
 
-//@ unit c18_now_early prop=C18 mem=4 timeout=1200 stubs=chrono::Local::now=>crate::verif_support::stub_local_now bound="clock years 1..=1969 (cannot occur through chrono, which panics before the epoch; run because it is free): Date::now and Timestamp::now"
+//@ unit c18_now_early prop=C18 tier=thorough mem=6 timeout=7200 stubs=chrono::Local::now=>crate::verif_support::stub_local_now bound="clock years 1..=1969 (cannot occur through chrono, which panics before the epoch; run because it is free): Date::now and Timestamp::now"
 fn c18_now_early() {
     let (y, m, d, h, mi, s, us) = any_clock(1, 1969);
     let n = crate::common::date2julian(y, m, d) - 2_440_588;
@@ -144,7 +144,7 @@ fn date_pic(kind: u8) -> Field {
     }
 }
 
-//@ unit c18_date_single prop=C18,C05,C03,C02 clock=1 chunks=range:0:6 quick=all unwind=14 mem=8 timeout=2400 stubs=chrono::Local::now=>crate::verif_support::stub_local_now,crate::util::try_format=>crate::verif_support::stub_try_format bound="Date::parse with the single-field picture given by the parameter (0 DD, 1 MM, 2 YYYY, 3 YYY, 4 YY, 5 Y, 6 DDD), every ASCII text of length <= 4, every current local date 1970..9999 (symbolic clock): missing year/month come from the clock, missing day is 1, short years are completed with the leading digits of the current year; invalid results are errors"
+//@ unit c18_date_single prop=C18,C05,C03,C02 clock=1 chunks=range:0:6 quickn=4 unwind=14 mem=8 timeout=2400 stubs=chrono::Local::now=>crate::verif_support::stub_local_now,crate::util::try_format=>crate::verif_support::stub_try_format bound="Date::parse with the single-field picture given by the parameter (0 DD, 1 MM, 2 YYYY, 3 YYY, 4 YY, 5 Y, 6 DDD), every ASCII text of length <= 4, every current local date 1970..9999 (symbolic clock): missing year/month come from the clock, missing day is 1, short years are completed with the leading digits of the current year; invalid results are errors"
 fn c18_date_single(kind: u8) {
     let (cy, cm, _cd, _, _, _, _) = any_clock(1970, 9999);
     let (buf, len) = ascii_text::<4>();
@@ -357,7 +357,7 @@ fn reparse_equal<const N: usize>(a: &Sink<N>, b: &Sink<N>) -> bool {
     true
 }
 
-//@ unit c06_time_hm prop=C06,C05,C04,C03 chunks=ints:0,1 quick=all unwind=10 mem=12 timeout=3600 stubs=chrono::Local::now=>crate::verif_support::stub_local_now,crate::util::try_format=>crate::verif_support::stub_try_format,crate::time::Time::extract=>crate::format::verif_h_fmt_fields::stub_time_extract bound="every hour and minute of the day (parameter 0: picture HH24:MI, parameter 1: MI:HH24 - field order swapped): format, parse the text with the same Formatter, get the value back, re-format byte for byte"
+//@ unit c06_time_hm prop=C06,C05,C04,C03 chunks=ints:0,1 quick=all unwind=10 mem=12 timeout=3600 stubs=chrono::Local::now=>crate::verif_support::stub_local_now,crate::util::try_format=>crate::verif_support::stub_try_format,crate::time::Time::extract=>crate::format::verif_h_fmt_fields::stub_time_extract bound="every hour and minute of the day (parameter 0: picture HH24MI, parameter 1: MIHH24 - field order swapped, adjacent fixed-width fields): format, parse the text with the same Formatter, get the value back, re-format byte for byte"
 fn c06_time_hm(swapped: i64) {
     any_clock(1970, 9999);
     let h: u32 = kani::any();
@@ -367,11 +367,11 @@ fn c06_time_hm(swapped: i64) {
     unsafe {
         crate::format::verif_h_fmt_fields::GHOST_TIME = (t.usecs(), h, mi, 0, 0);
     }
-    let fmt = if swapped == 1 { fmt3(Field::Minute, Field::Colon, Field::Hour24) } else { fmt3(Field::Hour24, Field::Colon, Field::Minute) };
+    let fmt = if swapped == 1 { fmt2(Field::Minute, Field::Hour24) } else { fmt2(Field::Hour24, Field::Minute) };
     let mut s1: Sink<16> = Sink::new();
     assert!(fmt.format(t, &mut s1).is_ok());
-    assert!(s1.len == 5);
-    let text = unsafe { std::str::from_utf8_unchecked(&s1.buf[..5]) };
+    assert!(s1.len == 4);
+    let text = unsafe { std::str::from_utf8_unchecked(&s1.buf[..4]) };
     let r: Result<Time> = fmt.parse(text);
     match r {
         Ok(v) => {
